@@ -51,6 +51,8 @@ pub struct Config {
     pub agent_jitter_per_mille: u64,
     /// `prune_remote_delay` in virtual milliseconds (None: effectively never).
     pub prune_ms: Option<u64>,
+    /// `inactive_timeout` in virtual milliseconds (None: effectively never).
+    pub inactive_ms: Option<u64>,
     /// Indices into the key pool's classes.
     pub key_classes: Vec<usize>,
     pub reporting: bool,
@@ -76,11 +78,13 @@ pub struct Gen<'a> {
     pub rng: &'a mut Rng,
     counters: Vec<u64>,
     next_supply: Vec<u64>,
+    /// At most one burst of hundreds of items per script (cost).
+    big_used: bool,
 }
 
 impl<'a> Gen<'a> {
     pub fn new(rng: &'a mut Rng) -> Self {
-        Gen { rng, counters: vec![0; 64], next_supply: vec![1; 8] }
+        Gen { rng, counters: vec![0; 64], next_supply: vec![1; 8], big_used: false }
     }
 
     fn uid(&mut self, source: usize) -> u64 {
@@ -252,6 +256,7 @@ impl<'a> Gen<'a> {
             jitter_per_mille: *self.rng.pick(&[0u64, 0, 100, 300, 600]),
             agent_jitter_per_mille: *self.rng.pick(&[0u64, 0, 0, 200, 500]),
             prune_ms,
+            inactive_ms: if focus == Focus::Protocol && self.rng.chance(1, 8) { Some(*self.rng.pick(&[15u64, 40])) } else { None },
             key_classes,
             reporting: focus == Focus::Links || self.rng.chance(1, 4),
         }
@@ -308,7 +313,8 @@ impl<'a> Gen<'a> {
             }
             LK::Map => Step::Lane(l, LaneCtl::Map(self.map_op(cfg, src))),
             LK::Supply => {
-                let big = focus == Focus::Supply && self.rng.chance(1, 8);
+                let big = focus == Focus::Supply && !self.big_used && self.rng.chance(1, 6);
+                self.big_used |= big;
                 let n = if big {
                     *self.rng.pick(&[200u64, 300, 500, 800, 1200, 2000])
                 } else if self.rng.chance(1, 2) {
@@ -318,7 +324,7 @@ impl<'a> Gen<'a> {
                 } as u32;
                 let first = self.next_supply[l.min(7)];
                 self.next_supply[l.min(7)] += n as u64;
-                Step::Lane(l, LaneCtl::Burst { first, n, pad: *self.rng.pick(&[0usize, 0, 12, 90]) })
+                Step::Lane(l, LaneCtl::Burst { first, n, pad: if big { *self.rng.pick(&[0usize, 12]) } else { *self.rng.pick(&[0usize, 0, 12, 90]) } })
             }
         }
     }
@@ -464,7 +470,7 @@ impl<'a> Gen<'a> {
                     let how = *self.rng.pick(&[FailHow::CorruptTag, FailHow::CorruptTag, FailHow::Truncated, FailHow::CloseWriter]);
                     steps.push(Step::Lane(l, LaneCtl::Fail(how)));
                 }
-                10 => steps.push(Step::Advance(*self.rng.pick(&[1u64, 3, 10, 30]))),
+                10 => steps.push(Step::Advance(if cfg.inactive_ms.is_some() { *self.rng.pick(&[3u64, 10, 30, 60]) } else { *self.rng.pick(&[1u64, 3, 10, 30]) })),
                 11 => {
                     steps.push(Step::AgentReturn(self.rng.bool()));
                     break;
